@@ -393,5 +393,9 @@ func TestC20Rich(t *testing.T) {
 		t1 := time.Now()
 		c20WholeApp(t, w.a, tr, w.ctx, ci)
 		c20Debug("case %d whole application: %.1fs", ci, time.Since(t1).Seconds())
+		// and through the literal entry point, on the committed state (first case of each world)
+		if ci < len(c20RichWorlds) || only >= 0 {
+			c20CommittedExport(t, w.a, tr, w.ctx, ci)
+		}
 	}
 }
